@@ -316,6 +316,7 @@ fn run_seq(hist: &Value, out: &mut dyn Write) {
                     }
                 }
                 "poke" => { pb.set_position(1); pb.set_message("z"); }
+                "reset_bar" => { pb.reset(); }
                 "refill" => { if let World::It { wsh, tsh, .. } = &world { let k = op["k"].as_u64().unwrap_or(1); let base = 1000 * (idx as u64 + 1);
                     wsh.borrow_mut().items.extend(base..base + k); tsh.borrow_mut().items.extend(base..base + k); } }
                 _ => match &mut world {
